@@ -18,7 +18,7 @@ num {int}: /[0-9]+/ { $$ = len(l.Text()) }
 
 Sum {int} :
     Atom
-  | left=Sum '+' right=Atom   { $$ = $left + $right }
+  | Sum[left] '+' Atom[right]   { $$ = $left + $right }
 ;
 
 Atom {int} :
